@@ -78,6 +78,17 @@ func replayRun(e *vlib.Env, w *world, st *stats) {
 				}
 			}
 		}
+		if pv, ok := r["previous_packet_on_same_processor"].(map[string]any); ok && pv["packet"] != nil {
+			praw, _ := hex.DecodeString(fmt.Sprint(pv["packet"]))
+			ps := &scenario{cfg: c, now: time.Now(), kind: "replay/previous", pathType: 1}
+			ps.post = []func([]byte) []byte{func([]byte) []byte { return praw }}
+			a, _ := pv["ingress_link"].(float64)
+			b, _ := pv["ingress_ifid"].(float64)
+			d, _ := pv["ingress_scope"].(float64)
+			ps.inLink, ps.inIfID, ps.inScope = int(a), uint16(b), int(d)
+			ps.srcHost, ps.dstHost = []byte{0, 0, 0, 0}, []byte{0, 0, 0, 0}
+			emit(e, w, st, ps, "replay-previous")
+		}
 		raw, _ := hex.DecodeString(fmt.Sprint(r["packet"]))
 		sc := &scenario{cfg: c, now: time.Now(), kind: fmt.Sprint(r["scenario"]), pathType: 1}
 		sc.post = []func([]byte) []byte{func([]byte) []byte { return raw }}
